@@ -384,4 +384,27 @@ example : (newConfig .tg exParse { exEnv with toS := some [0x35], toG := some [0
 /-- the hypotheses of `otlp_precedence` are satisfiable with a specific endpoint that decides the path -/
 example : F20_applies .lh exParse exEnv [] = false ∧ pathSource .lh exParse exEnv [] = .specific [0x2f, 0x63, 0x75, 0x73, 0x74, 0x6f, 0x6d, 0x2f] := by decide
 
+/-! ## the resolved timeout reaches the client on every construction path -/
+
+/-- the timeout an exporter really runs with (`http.Client.Timeout` / the gRPC export deadline) is the one the
+highest-precedence source provides — for each of the six exporters, every combination of sources AND every
+construction path (shared or cloned transport, TLS configuration, proxy, supplied gRPC connection). -/
+theorem effective_timeout_follows_precedence (exp : Exp) (parse : Parse) (e : OtlpEnv) (opts : List UOpt)
+    (b : Build) : effectiveTimeout exp parse e opts b = expectedTimeout exp e opts := by
+  rw [← otlp_precedence_timeout exp parse e opts]
+  unfold effectiveTimeout newClientM
+  cases exp.isHttp <;> cases b.tls <;> cases b.proxy <;> cases exp.isLog <;> simp
+
+/-- … in particular the construction path never matters for it. -/
+theorem effective_timeout_independent_of_path (exp : Exp) (parse : Parse) (e : OtlpEnv) (opts : List UOpt)
+    (b b' : Build) : effectiveTimeout exp parse e opts b = effectiveTimeout exp parse e opts b' := by
+  rw [effective_timeout_follows_precedence, effective_timeout_follows_precedence]
+
+/-- non-vacuity: option 120 ms over a specific variable of 900 ms, on a cloned transport with TLS and proxy -/
+example :
+    effectiveTimeout .th (fun _ => none)
+      { epS := none, epG := none, insS := none, insG := none, hdS := none, hdG := none, coS := none, coG := none,
+        toS := some [0x39, 0x30, 0x30], toG := none }
+      [.timeout 120000000] { tls := true, proxy := true, suppliedConn := false } = 120000000 := by decide
+
 end Otel.C20
